@@ -4,6 +4,10 @@ func init() {
 	const bulk = "internal/api/v2/bulk.go"
 	const ctl = "internal/api/v2/controllers_bulk.go"
 	addMutants(
+		Mutant{Property: "C18", Name: "parameters-hoisted-key-set-when-present", File: "internal/api/v2/bulk.go",
+			Old: "\tfor i, element := range bulk {\n\t\tparameters := command.Parameters{\n\t\t\tDryRun:         false,\n\t\t\tIdempotencyKey: element.IdempotencyKey,\n\t\t}\n", New: "\tparameters := command.Parameters{}\n\tfor i, element := range bulk {\n\t\tif element.IdempotencyKey != \"\" {\n\t\t\tparameters.IdempotencyKey = element.IdempotencyKey\n\t\t}\n", Expect: "R18g:"},
+		Mutant{Property: "C18", Name: "parameters-hoisted-key-always-set", File: "internal/api/v2/bulk.go",
+			Old: "\tfor i, element := range bulk {\n\t\tparameters := command.Parameters{\n\t\t\tDryRun:         false,\n\t\t\tIdempotencyKey: element.IdempotencyKey,\n\t\t}\n", New: "\tparameters := command.Parameters{}\n\tfor i, element := range bulk {\n\t\tparameters.IdempotencyKey = element.IdempotencyKey\n", Expect: "none", Benign: true},
 		Mutant{Property: "C18", Name: "unknown-action-skipped", File: bulk,
 			Old: "\t\tdefault:\n\t\t\tbulkError(element.Action, ErrValidation, fmt.Errorf(\"error parsing element %d: unknown action '%s'\", i, element.Action))\n\t\t\tif !continueOnFailure {\n\t\t\t\treturn ret, errorsInBulk, nil\n\t\t\t}\n", New: "", Expect: "R18a:ProcessBulk:exactly-one-result-per-element"},
 		Mutant{Property: "C18", Name: "parse-error-drops-results", File: bulk, Nth: 1,
